@@ -548,7 +548,8 @@ def message_ok(m):
                 return False
             src = u(part.value)
             if not (src.endswith(".__class__.__name__") and src.count(".") == 2) and \
-                    not (src.startswith("str(len(") and src.endswith("))") and src[8:-2].isidentifier()):
+                    not (src.startswith("str(len(") and src.endswith("))") and src[8:-2].isidentifier()) and \
+                    not (src.startswith("len(") and src.endswith(")") and src[4:-1].isidentifier()):
                 return False
         return True
     return False
@@ -563,8 +564,16 @@ def raise_stmt(s, env, ctx, ind):
     cls = u(e.func)
     if cls == "DecodeError" and ctx.fn == "_decode" and len(e.args) == 4:
         m = e.args[0]
+        folded = None
+        if isinstance(m, ast.Constant) and isinstance(m.value, str) and m.value not in DEC_MSG:
+            for (pre, suf), k in DEC_FMSG.items():            # the formatted message with its number written out
+                mid = m.value[len(pre):len(m.value) - len(suf)] if suf else m.value[len(pre):]
+                if m.value.startswith(pre) and m.value.endswith(suf) and mid.isdigit() and len(mid) < 6:
+                    folded = f"({k} ({int(mid)} : Nat))"
         if isinstance(m, ast.Constant) and m.value in DEC_MSG:
             kind = DEC_MSG[m.value]
+        elif folded is not None:
+            kind = folded
         elif isinstance(m, ast.JoinedStr) and len(m.values) == 3 and isinstance(m.values[0], ast.Constant) and isinstance(m.values[2], ast.Constant) \
                 and (m.values[0].value, m.values[2].value) in DEC_FMSG and isinstance(m.values[1], ast.FormattedValue) \
                 and m.values[1].conversion == -1 and m.values[1].format_spec is None:
